@@ -41,6 +41,10 @@ fn main() {
             std::io::stdin().read_to_string(&mut case).unwrap();
             core::one_main(e.as_ref(), tier, &case, active);
         }
+        "--describe" => {
+            let e = engine(&args[2]).expect("engine");
+            println!("{:?}", e.features(&args[3]));
+        }
         "--classes" => {
             // development aid: group failures of a tier by (clause, site, features)
             let e = engine(&args[2]).expect("engine");
